@@ -274,38 +274,43 @@ def analyse(pattern):
         return [items]
 
     def lone_unbounded(seq):
-        """the sequence contains an unbounded repeat (with a non-nullable body) and everything else in it is nullable"""
+        """the sequence contains an unbounded repeat (with a non-nullable body) and everything else in it is nullable: -> a sample of
+        that inner repeat's body (the text to pump), else None"""
         seq = list(seq)
         for i, (op, av) in enumerate(seq):
             inner = None
             if unbounded(op, av) and not nullable(list(av[2])):
-                inner = av[2]
-            elif op is C.SUBPATTERN and any(lone_unbounded(a) for a in alternatives([(op, av)])):
-                inner = av[3]
-            if inner is not None and nullable(seq[:i]) and nullable(seq[i + 1:]):
-                return True
-        return False
+                inner = sample(list(av[2]))
+            elif op is C.SUBPATTERN:
+                inner = next((x for x in (lone_unbounded(a) for a in alternatives([(op, av)])) if x), None)
+            if inner and nullable(seq[:i]) and nullable(seq[i + 1:]):
+                return inner
+        return None
 
-    def walk(items):
-        for op, av in items:
+    def walk(items, lead=""):
+        """`lead` = a sample of what the pattern matches in front of the current position (what gets a matcher INTO the repeat)"""
+        items = list(items)
+        for i, (op, av) in enumerate(items):
+            here = lead + sample(items[:i])
             if op in REPEATS:
                 body = list(av[2])
                 if unbounded(op, av):
                     alts = alternatives(body)
-                    if any(lone_unbounded(a) for a in alts):
-                        flags.append({"kind": "nested-unbounded", "body": sample(body)})
+                    inner = next((x for x in (lone_unbounded(a) for a in alts) if x), None)
+                    if inner:
+                        flags.append({"kind": "nested-unbounded", "body": inner, "lead": here})
                     elif len(alts) > 1:
                         firsts = [{ch for ch in PROBE if _can_start(a, ch)[0]} for a in alts]
                         if any(firsts[i] & firsts[j] for i in range(len(alts)) for j in range(i + 1, len(alts))):
-                            flags.append({"kind": "overlapping-alternatives", "body": sample(body)})
-                walk(body)
+                            flags.append({"kind": "overlapping-alternatives", "body": sample(body), "lead": here})
+                walk(body, here)
             elif op is C.SUBPATTERN:
-                walk(list(av[3]))
+                walk(list(av[3]), here)
             elif op is C.BRANCH:
                 for b in av[1]:
-                    walk(list(b))
+                    walk(list(b), here)
             elif op in (C.ASSERT, C.ASSERT_NOT):
-                walk(list(av[1]))
+                walk(list(av[1]), here)
 
     walk(list(tree))
     return flags
@@ -364,12 +369,13 @@ _STATE = {"new_flagged": [], "flagged": []}
 
 
 def flagged_bodies(only_new=False):
-    """sample texts of the bodies of the flagged repeats (of the NEW flagged regexes only, or of all)"""
+    """[lead, body] sample texts of the flagged repeats (of the NEW flagged regexes only, or of all): `lead` is what the pattern
+    matches in front of the repeat (e.g. the opening quote), `body` what one round of the repeat matches"""
     out = []
     for e in _STATE["new_flagged" if only_new else "flagged"]:
         for f in e["flags"]:
-            if f.get("body") and f["body"] not in out:
-                out.append(f["body"])
+            if f.get("body") and [f.get("lead", ""), f["body"]] not in out:
+                out.append([f.get("lead", ""), f["body"]])
     return out
 
 
